@@ -14,6 +14,10 @@ pub struct PagedWriter<T: Write + Read + Seek> {
     offset: usize,
     page_buffer: [u8; PAGE_SIZE as usize],
 
+    /// Set after an error of the underlying writer.
+    /// Position and page buffer are in an undefined state then and nothing more can be written.
+    failed: bool,
+
     #[cfg(not(feature = "crc32c"))]
     crc: Crc32,
 }
@@ -31,14 +35,43 @@ impl<T: Write + Read + Seek> PagedWriter<T> {
             writer,
             offset: 0,
             page_buffer: [0_u8; PAGE_SIZE as usize],
+            failed: false,
 
             #[cfg(not(feature = "crc32c"))]
             crc: Crc32::new(),
         })
     }
 
+    /// Refuses to continue after an earlier error of the underlying writer.
+    fn check_failed(&self) -> std::io::Result<()> {
+        if self.failed {
+            Err(std::io::Error::other(
+                "An earlier error of the underlying writer left the file in an undefined state",
+            ))
+        } else {
+            Ok(())
+        }
+    }
+
+    /// Remembers errors of the underlying writer, rejected arguments are harmless.
+    fn track<R>(&mut self, result: Result<R>) -> Result<R> {
+        if let Err(err) = &result {
+            if !matches!(err, Error::Invalid { .. }) {
+                self.failed = true;
+            }
+        }
+        result
+    }
+
     /// Get the current physical offset in the file.
     pub fn physical_position(&mut self) -> Result<u64> {
+        self.check_failed()
+            .write_err("Cannot get the position of a failed writer")?;
+        let result = self.physical_position_inner();
+        self.track(result)
+    }
+
+    fn physical_position_inner(&mut self) -> Result<u64> {
         let pos = self
             .writer
             .stream_position()
@@ -48,6 +81,13 @@ impl<T: Write + Read + Seek> PagedWriter<T> {
 
     /// Seek to a specific physical offset in the file.
     pub fn physical_seek(&mut self, pos: u64) -> Result<()> {
+        self.check_failed()
+            .write_err("Cannot seek in a failed writer")?;
+        let result = self.physical_seek_inner(pos);
+        self.track(result)
+    }
+
+    fn physical_seek_inner(&mut self, pos: u64) -> Result<()> {
         // Make sure we wrote any current (partial) page before seeking
         self.flush().write_err("Failed to flush before seeking")?;
 
@@ -96,6 +136,13 @@ impl<T: Write + Read + Seek> PagedWriter<T> {
 
     // Get the current physical size of the file.
     pub fn physical_size(&mut self) -> Result<u64> {
+        self.check_failed()
+            .write_err("Cannot get the size of a failed writer")?;
+        let result = self.physical_size_inner();
+        self.track(result)
+    }
+
+    fn physical_size_inner(&mut self) -> Result<u64> {
         self.flush().write_err("Cannot flush writer")?;
         let pos = self
             .writer
@@ -123,8 +170,8 @@ impl<T: Write + Read + Seek> PagedWriter<T> {
     }
 }
 
-impl<T: Write + Read + Seek> Write for PagedWriter<T> {
-    fn write(&mut self, buf: &[u8]) -> std::io::Result<usize> {
+impl<T: Write + Read + Seek> PagedWriter<T> {
+    fn write_inner(&mut self, buf: &[u8]) -> std::io::Result<usize> {
         let remaining_page_bytes = PAGE_PAYLOAD_SIZE - self.offset;
         let writeable_bytes = buf.len().min(remaining_page_bytes);
         self.page_buffer[self.offset..self.offset + writeable_bytes]
@@ -150,7 +197,7 @@ impl<T: Write + Read + Seek> Write for PagedWriter<T> {
         Ok(writeable_bytes)
     }
 
-    fn flush(&mut self) -> std::io::Result<()> {
+    fn flush_inner(&mut self) -> std::io::Result<()> {
         // If the page buffer is empty we do not need to persist it
         if self.offset > 0 {
             // Store start position in current page
@@ -174,6 +221,22 @@ impl<T: Write + Read + Seek> Write for PagedWriter<T> {
 
         // Forward flush to underlying writer
         self.writer.flush()
+    }
+}
+
+impl<T: Write + Read + Seek> Write for PagedWriter<T> {
+    fn write(&mut self, buf: &[u8]) -> std::io::Result<usize> {
+        self.check_failed()?;
+        let result = self.write_inner(buf);
+        self.failed |= result.is_err();
+        result
+    }
+
+    fn flush(&mut self) -> std::io::Result<()> {
+        self.check_failed()?;
+        let result = self.flush_inner();
+        self.failed |= result.is_err();
+        result
     }
 }
 
